@@ -108,7 +108,27 @@ def run(C, R):
                     R.fail('C11.R1', [fn['path'], flag, 'non-monotone-write'],
                            '%s writes %s with something other than `true` (or outside the state struct)' % (
                                fn['path'], flag), F.loc(fn, s['ln']))
-        R.floor('C11.R1 flag-writes[%s]' % cfg, nw, len(CHANNEL_STATES))
+        # ... and every store the transitions make into the flag by other means (`mem::replace(&mut flag, true)`, a
+        # store through a `&mut bool` handed to a helper), seen as write events on their paths
+        states_with_writes = set()
+        for st, flag in CHANNEL_STATES.items():
+            mod = st.rsplit('::', 1)[0]
+            if any(True for _fn, _s in scan_field_writes(F, flag, mod + '::')):
+                states_with_writes.add(st)
+            for m in entry_methods(F, CG, st):
+                for path in E.run(m['path']):
+                    for e in path.events:
+                        if e['k'] in ('write', 'replace') and e.get('loc') and e['loc'][:1] == (('P', 'self'),) \
+                                and fields_of(e['loc'])[-1:] == (flag,):
+                            states_with_writes.add(st)
+                            v_ = e.get('val')
+                            if v_ == ('const', 1) or const_of(E, path.facts, v_) == 1:
+                                R.ok('C11.R1', '%s|%s:=true (event)' % (m['path'], flag))
+                            else:
+                                R.fail('C11.R1', [m['path'], flag, 'non-monotone-write'],
+                                       '%s stores %s into %s: the closed flag only ever becomes true' % (
+                                           m['path'], fmt_val(v_), flag), where(F, e), {'trace': trace_summary(path)})
+        R.floor('C11.R1 states-with-a-flag-write[%s]' % cfg, len(states_with_writes), len(CHANNEL_STATES))
         # ---------------- R2..R4 per state struct
         for st, flag in CHANNEL_STATES.items():
             queues = roles.state_structs[st]['queues']
